@@ -16,7 +16,8 @@ import dates as D   # noqa: E402
 from parallel import driver_parallel  # noqa: E402
 
 GEN = ['DateK', 'Calendar', 'DateLogic']
-PROPS = ['FinVerif.Props.C13', 'FinVerif.Props.C13b', 'FinVerif.Props.C13c', 'FinVerif.Props.C13d']
+PROPS = ['FinVerif.Props.C13', 'FinVerif.Props.C13b', 'FinVerif.Props.C13c', 'FinVerif.Props.C13d',
+         'FinVerif.Props.C13e', 'FinVerif.Props.C13f', 'FinVerif.Props.C13g']
 DRIVERS = ['FinVerif.Driver.C13']
 SPEC_DRIVERS = ['FinVerif.Driver.C13Spec']
 
@@ -25,7 +26,9 @@ RULE = ('single-date observables (serial, weekday, index round trip through the 
         '(|n|<=800), add_months (|k|<=600; exhaustive k in [-24,24] on month-end dates of a seed-chosen window), '
         'add_weekdays, add_tenor (D/W/M/Y, both signs): sampled from dates biased to month ends / 29 Feb / year ends; '
         'histories: fresh interpreter processes constructing years beyond 2100 in different orders and stepping over the '
-        'table end. Independent oracle: Python datetime. Non-trivial = all (each op is a distinct date/argument).')
+        'table end; the padded table g_dt_counter_list itself: every slot, for the table in use and for rebuilt tables of '
+        'several end years (incl. a seed-chosen one), against the fold model calcList and against datetime; days_in_month '
+        'for every year x months -3..15. Independent oracle: Python datetime. Non-trivial = all (each op is a distinct date/argument).')
 
 
 def fmt(dt):
@@ -191,6 +194,16 @@ def run(ctx):
     ctx.count('add_days inverse law', ninv)
 
     glue_oracles(ctx, rng, alld, dobj)
+    table_check(ctx, rng, dmod, drivers_ok)
+
+    # days_in_month (GENERATED kernel; theorem days_in_month_eq_monthLen)
+    from financepy.utils.date import days_in_month
+    ops, impl = [], []
+    for y in range(1900, 2202):
+        for m in range(-3, 16):
+            ops.append(f'DIM {m} {y}')
+            impl.append(call(lambda: str(int(days_in_month(m, y)))))
+    compare(ctx, 'days_in_month', ops, impl, drivers_ok, None, exhaustive=False)
 
     ctx.assumptions += [
         'anchors: serial(1 Mar 1900) = 61 and 1 Mar 1900 was a Thursday (cross-checked against Python datetime for every date)',
@@ -201,6 +214,71 @@ def run(ctx):
                     C.TRUSTED_BASE_COMMON + ['Spec: Gregorian successor + Excel anchor (FinVerif/Spec/Date.lean); Python datetime as an independent oracle'],
                     RULE)
 
+
+
+def table_check(ctx, rng, dmod, drivers_ok):
+    """The padded serial table itself (theorems table_lookup / table_pad / table_prefix_stable are about the fold model
+    `calcList E`): every slot of the table in use and of tables rebuilt by the real `calculate_list` for several end years,
+    compared with (a) the model driver's `calcList E` and (b) Python datetime (slots from 1 Mar 1900 on: the serial for
+    existing days, the padding value -999 for non-existent ones).  The module globals are restored afterwards."""
+    import datetime as pydt
+    cur_end = dmod.g_end_year
+    ends = sorted({1900, 1901, 1904, 2100, cur_end, rng.randint(1902, 2300)})
+    saved_list, saved_end = dmod.g_dt_counter_list, dmod.g_end_year
+    tables = {cur_end: list(saved_list)}
+    try:
+        for e in ends:
+            if e == cur_end:
+                continue
+            dmod.g_end_year = e
+            dmod.calculate_list()
+            tables[e] = list(dmod.g_dt_counter_list)
+    finally:
+        dmod.g_end_year = saved_end
+        dmod.g_dt_counter_list = saved_list
+    model = None
+    if drivers_ok:
+        try:
+            model = C.run_driver('C13', [f'TBL {e}' for e in ends])
+        except C.DriverError as ex:
+            ctx.broke(f'model driver failed on the date table: {str(ex)[:300]}')
+    base = pydt.date(1899, 12, 30)
+    nslots = nbad = nbad_m = 0
+    for i, e in enumerate(ends):
+        tb = tables[e]
+        nslots += len(tb)
+        if len(tb) != 372 * (e - 1900 + 1):
+            ctx.violation('date table does not have 372 slots per year', {'end_year': e, 'len': len(tb)}, clause='table')
+        # (b) independent oracle
+        for idx, v in enumerate(tb):
+            y, r = 1900 + idx // 372, idx % 372
+            m, d = 1 + r // 31, 1 + r % 31
+            if y == 1900 and m < 3:
+                continue   # before the property's domain (Excel's phantom 29 Feb 1900)
+            try:
+                exp = (pydt.date(y, m, d) - base).days
+            except ValueError:
+                exp = -999
+            if v != exp:
+                nbad += 1
+                if nbad <= 3:
+                    ctx.violation('date table entry differs from the Excel serial / padding expected from Python datetime',
+                                  {'end_year': e, 'slot': idx, 'd_m_y': (d, m, y), 'entry': v, 'expected': exp},
+                                  clause='table')
+        # prefix stability on the implementation
+        small = tables[ends[0]]
+        if tb[:len(small)] != small:
+            ctx.violation('extending the date table changed existing entries', {'end_year': e}, clause='table')
+        # (a) fold model
+        if model is not None:
+            mt = [int(x) for x in model[i].split()]
+            if mt != tb:
+                nbad_m += 1
+                j = next((k for k in range(min(len(mt), len(tb))) if mt[k] != tb[k]), min(len(mt), len(tb)))
+                ctx.broke(f'correspondence date table: calcList {e} != g_dt_counter_list at slot {j} '
+                          f'(model len {len(mt)}, impl len {len(tb)})')
+    ctx.count('date table (every slot, several end years) vs fold model and datetime', nslots,
+              sample={'end_years': ends})
 
 
 def glue_oracles(ctx, rng, alld, dobj):
